@@ -583,7 +583,7 @@ func init() {
 	core.Register(&core.Check{
 		ID:          "C15",
 		Level:       "exploration",
-		Rule:        "the source-text corpus of C02 (grammar trees by size, two-level trees, adjacency, literals, comments, shipped programs): every accepted text is parsed in line mode and file mode (equal canonical dumps incl. comment placement flags, no error, no continuation); every proper prefix ending at a token boundary that the harness's own bracket/operator tracker classifies as inside an unclosed ( [ {, or right after a binary operator, and every cut inside a string or block comment token, must set ContinuationNeeded and report no error; scripts (all short statement sequences that run without error) are fed in every split into consecutive chunks through repl.EvalOne in line mode on one persistent state and must give the same printed output and final globals as the whole script. Non-trivial = accepted texts / error-free scripts. The interactive loop itself: open constructs x the words the loop understands (help, history, exit, !n) alone on a continuation line, typed a line at a time into the real grol command versus the same text as a file; state files with a line of every length around the scanner limits x MaxValueLen options: repl.AutoLoad versus evaluation in one go.",
+		Rule:        "the source-text corpus of C02 (grammar trees by size, two-level trees, adjacency, literals, comments, shipped programs): every accepted text is parsed in line mode and file mode (equal canonical dumps incl. comment placement flags, no error, no continuation); every proper prefix ending at a token boundary that the harness's own bracket/operator tracker classifies as inside an unclosed ( [ {, or right after a binary operator, and every cut inside a string or block comment token, must set ContinuationNeeded and report no error; scripts (all short statement sequences that run without error) are fed in every split into consecutive chunks through repl.EvalOne in line mode on one persistent state and must give the same printed output and final globals as the whole script. Non-trivial = accepted texts / error-free scripts. The interactive loop itself: open constructs x the words the loop understands (help, history, exit, !n) alone on a continuation line, typed a line at a time into the real grol command versus the same text as a file; state files with a line of every length around the scanner limits x MaxValueLen options: repl.AutoLoad versus evaluation in one go. Round 7: 32 constructs (every way the expression parser returns) each repeated 12000 times; scripts with macros whose bodies define and call functions at expansion time.",
 		Assume:      []string{"token boundaries are taken from the lexer (checked by C16); the bracket/operator tracker is the harness's own"},
 		QuickCap:    240 * time.Second,
 		ThoroughCap: 20 * time.Minute,
